@@ -23,7 +23,7 @@ EXPLANATION = (
     "test a data value for truthiness); R-sortby-used (results of the pure sort_by / sort are used)."
 )
 NOT_DECIDED = "disjointness of groups under arbitrary update(); equality with a reference model along concrete histories (exploration / model checking)"
-FLOORS = {"R-comutation": 7, "R-append-absent": 14, "R-value-truthiness": 2, "R-nan-aware-lookup": 3, "R-no-raw-mutators": 1, "R-sortby-used": 4}
+FLOORS = {"R-comutation": 7, "R-append-absent": 14, "R-value-truthiness": 2, "R-nan-aware-lookup": 3, "R-no-raw-mutators": 1, "R-sortby-used": 5}
 
 RAW = {"insert", "extend", "reverse", "clear", "__setitem__", "__delitem__", "popitem"}
 
@@ -218,6 +218,27 @@ def rule_pure_key_set(ctx):
     built = any(isinstance(n, ast.DictComp) and unparse(n.generators[0].iter) == "keys" and unparse(n.value) == f"self.get({unparse(n.key)})" for n in ast.walk(fs.node))
     ctx.ob(R, construct(fs, "sort() re-orders all keys: the str / non-str key lists partition the list, every group is carried over"), ok and built, loc(fs),
            "" if (ok and built) else "keys matching neither filter (e.g. int leaders) are dropped with their whole groups")
+    # the numeric keys are ordered by numpy.sort (a total order with NaN last): the built-in comparison
+    # sort is inconsistent as soon as a NaN leader is present (numbers left unsorted around it)
+    from ..core import External
+
+    num_sorts = []
+    for c in walk_no_nested(fs.node):
+        if isinstance(c, ast.Call) and ((isinstance(c.func, ast.Name) and c.func.id in ("sorted", "sort")) or (isinstance(c.func, ast.Attribute) and c.func.attr == "sort")):
+            num_sorts.append(c)
+    if not num_sorts:
+        raise AnalysisError("GroupedList.sort: no sorting call found")
+    bad_sort = None
+    # only the list of non-str keys matters (strings are totally ordered by the built-in sort too)
+    num_names = {unparse(n.targets[0]) for n in walk_no_nested(fs.node) if isinstance(n, ast.Assign) and n.value in comps and unparse(n.value.generators[0].ifs[0]).startswith("not ")}
+    if num_names:
+        num_sorts = [c for c in num_sorts if num_names & ({x.id for a in c.args for x in ast.walk(a) if isinstance(x, ast.Name)} | ({c.func.value.id} if isinstance(c.func, ast.Attribute) and isinstance(c.func.value, ast.Name) else set()))] or num_sorts
+    for c in num_sorts:
+        sym = ctx.repo.resolve_expr(fs.module, c.func) if isinstance(c.func, (ast.Name, ast.Attribute)) else None
+        if not (isinstance(sym, External) and sym.dotted.startswith("numpy") and sym.last == "sort"):
+            bad_sort = bad_sort or c
+    ctx.ob(R, construct(fs, "sort() orders the keys with numpy.sort (total order, NaN last)"), bad_sort is None, loc(fs, bad_sort),
+           "" if bad_sort is None else f"`{short(bad_sort, 60)}` is a comparison sort: with a NaN leader the numbers are left unsorted (every comparison with NaN is False)")
     fb = gl.methods.get("sort_by")
     asserts = [a for a in walk_no_nested(fb.node) if isinstance(a, ast.Assert)]
     txt = [unparse(a.test).replace(" ", "") for a in asserts]
@@ -259,6 +280,7 @@ _RGL_OLD = """        # replacing in the list
         self.content.pop(group_leader)
 """
 MUTANTS = [
+    M("sort() uses the built-in comparison sort", [(F_GL, "        keys = list(sort(keys_str)) + list(sort(keys_float))", "        keys = sorted(keys_str) + sorted(keys_float)")], "R-sortby-used", "numpy.sort"),
     M("D16-reverted: replace_group_leader(l, l) pops the group", [(F_GL, _RGL_FIXED, _RGL_OLD)], "R-comutation", "replace_group_leader", quick=True),
     M("D17-reverted: any(found) in get_group", [(F_GL, "        if len(found) > 0:\n            return found[0]", "        if any(found):\n            return found[0]")], "R-value-truthiness", "get_group", quick=True),
     M("D15-reverted: default group appended unconditionally", [(F_QUAL, "                if self.str_default not in order:\n                    order.append(self.str_default)\n", "                order.append(self.str_default)\n")], "R-append-absent", "CategoricalDiscretizer.fit", quick=True),
